@@ -20,13 +20,15 @@ const PROP: &str = "C07";
 enum Shape {
     SetOpt,
     AppendOpt,
+    /// Append option whose occurrences may carry no value at all (num_args 0..=1)
+    AppendOpt0,
     Count,
     SetTrue,
     SetFalse,
     PosSet,
     PosAppend,
 }
-const SHAPES: [Shape; 7] = [Shape::SetOpt, Shape::AppendOpt, Shape::Count, Shape::SetTrue, Shape::SetFalse, Shape::PosSet, Shape::PosAppend];
+const SHAPES: [Shape; 8] = [Shape::SetOpt, Shape::AppendOpt, Shape::AppendOpt0, Shape::Count, Shape::SetTrue, Shape::SetFalse, Shape::PosSet, Shape::PosAppend];
 const SELF_MODES: [&str; 3] = ["none", "args_override_self", "overrides_with_self"];
 /// (from, to) override edges
 const RELS: [&[(&str, &str)]; 8] = [
@@ -43,7 +45,7 @@ const RELS: [&[(&str, &str)]; 8] = [
 fn build_spec(shape: Shape, self_mode: &str, rel: &[(&str, &str)]) -> CmdSpec {
     let mut c = CmdSpec::new("prog");
     let mut x = match shape {
-        Shape::SetOpt | Shape::AppendOpt => ArgSpec::opt("x", Some('x'), Some("x")),
+        Shape::SetOpt | Shape::AppendOpt | Shape::AppendOpt0 => ArgSpec::opt("x", Some('x'), Some("x")),
         Shape::Count | Shape::SetTrue | Shape::SetFalse => ArgSpec::flag("x", Some('x'), Some("x")),
         Shape::PosSet | Shape::PosAppend => {
             let mut p = ArgSpec::pos("x", 1);
@@ -53,11 +55,15 @@ fn build_spec(shape: Shape, self_mode: &str, rel: &[(&str, &str)]) -> CmdSpec {
     };
     x.action = Some(match shape {
         Shape::SetOpt | Shape::PosSet => Act::Set,
-        Shape::AppendOpt | Shape::PosAppend => Act::Append,
+        Shape::AppendOpt | Shape::AppendOpt0 | Shape::PosAppend => Act::Append,
         Shape::Count => Act::Count,
         Shape::SetTrue => Act::SetTrue,
         Shape::SetFalse => Act::SetFalse,
     });
+    if shape == Shape::AppendOpt0 {
+        x.num_args = Some((0, Some(1)));
+        x.require_equals = true;
+    }
     if self_mode == "overrides_with_self" {
         x.overrides.push("x".into());
     }
@@ -89,6 +95,7 @@ enum Tok {
 fn tokens(shape: Shape) -> Vec<Tok> {
     match shape {
         Shape::SetOpt | Shape::AppendOpt | Shape::PosSet | Shape::PosAppend => vec![Tok::X(Some("v1")), Tok::X(Some("v2")), Tok::Y, Tok::Z],
+        Shape::AppendOpt0 => vec![Tok::X(Some("v1")), Tok::X(None), Tok::Y, Tok::Z],
         _ => vec![Tok::X(None), Tok::Y, Tok::Z],
     }
 }
@@ -99,6 +106,7 @@ fn spell(shape: Shape, seq: &[Tok]) -> Vec<Vec<u8>> {
         match t {
             Tok::X(Some(v)) => match shape {
                 Shape::PosSet | Shape::PosAppend => out.push(v.as_bytes().to_vec()),
+                _ if shape == Shape::AppendOpt0 => out.push(format!("--x={}", v).into_bytes()),
                 _ => {
                     out.push(b"--x".to_vec());
                     out.push(v.as_bytes().to_vec());
@@ -183,7 +191,7 @@ fn fold(spec: &CmdSpec, shape: Shape, seq: &[Tok]) -> Result<Folded, String> {
 
 fn read_x(m: &ArgMatches, shape: Shape) -> (Vec<Vec<String>>, String) {
     match shape {
-        Shape::SetOpt | Shape::AppendOpt | Shape::PosSet | Shape::PosAppend => {
+        Shape::SetOpt | Shape::AppendOpt | Shape::AppendOpt0 | Shape::PosSet | Shape::PosAppend => {
             let occ: Vec<Vec<String>> = m
                 .get_occurrences::<String>("x")
                 .map(|o| o.map(|g| g.cloned().collect()).collect())
@@ -255,7 +263,7 @@ fn judge(spec: &CmdSpec, cmd: &clap::Command, shape: Shape, seq: &[Tok], argv: &
                         bad.push((format!("{:?}: final value is not that of the last surviving occurrence", shape), format!("got {:?} want {:?}", occ, want_last)));
                     }
                 }
-                Shape::AppendOpt | Shape::PosAppend => {
+                Shape::AppendOpt | Shape::AppendOpt0 | Shape::PosAppend => {
                     if occ != w.x {
                         let cause = if occ.concat() == w.x.concat() {
                             format!("{:?}: occurrence boundaries not kept", shape)
@@ -349,7 +357,7 @@ fn main() {
         for sm in SELF_MODES {
             // `Append` together with an explicit overrides_with(self) is contradictory and pinned
             // by neither the property nor the documentation: not enumerated
-            if matches!(s, Shape::AppendOpt | Shape::PosAppend) && sm == "overrides_with_self" {
+            if matches!(s, Shape::AppendOpt | Shape::AppendOpt0 | Shape::PosAppend) && sm == "overrides_with_self" {
                 continue;
             }
             for r in 0..RELS.len() {
